@@ -1021,11 +1021,25 @@ func genCase(rng *rand.Rand) scase {
 			b.Time.Clock = append([]int(nil), clock...)
 		}
 		// upload second advances by 0, 1 or many seconds between batches
-		switch rng.Intn(3) {
+		switch rng.Intn(4) {
 		case 1:
 			clock[5]++
 		case 2:
 			clock[5] += 1 + rng.Intn(7000)
+		case 3:
+			// the next upload of this worker falls into the SAME hour (or minute) of another day, month or year:
+			// whatever the worker keeps from one upload to the next, each component of the key is today's
+			switch rng.Intn(4) {
+			case 0:
+				clock[2] += 1 + rng.Intn(3)
+			case 1:
+				clock[1] += 1 + rng.Intn(3)
+			case 2:
+				clock[0]++
+			default:
+				clock[2]++
+				clock[4] += rng.Intn(3)
+			}
 		}
 		nt := time.Date(clock[0], time.Month(clock[1]), clock[2], clock[3], clock[4], clock[5], 0, time.UTC)
 		if nt.Year() > 9999 {
@@ -1115,7 +1129,7 @@ func init() {
 			cases = append(cases, c)
 		}
 		rep.Notes = append(rep.Notes, sdkKeyProbe())
-		rep.Rule = "constructors: every 5th generated case (20%) and the corpus cases that say so build their worker through transporter.NewTransporter (the production constructor: real aws-sdk-go session + S3 client with static dummy credentials, region us-east-1, and - set by the constructor itself - MaxRetries 0 and path-style addressing) instead of NewTransporterWithInterface; its endpoint is an httptest server of the harness that reads PUT /bucket/<key> completely, rebuilds the PutObjectInput and hands it to the SAME scripted fake (a scripted failure after n bytes reads n bytes of the received body and is answered with the S3 XML error InternalError, HTTP 500). SDK-level retries: HTTP 500 is retryable for the SDK's own retryer; that no second request is made is the constructor's MaxRetries 0, i.e. one worker attempt = one request = one fake call is itself under test (a constructor that loses the setting shows as attempts beyond the budget). Kept on the test constructor in the generated share: cancellation at 'check'/'upload' (the real client honours the context, the fake ignores it by contract) and key spaces / raw time strings with an empty, '.' or '..' segment inside a component (the SDK's REST URI cleaning rewrites such keys; see the key-probe note). A production case whose plumbing failed (unparsable request, unscripted client-side error such as a connection failure) is dropped and counted under ctor-share:dropped-infrastructure, never emitted or monitored. Then: corpus first, then seeded: 90% valid (JSON-like records without raw newline, clock-formatted upload times advancing by 0/1/many seconds), 10% adversarial (empty / newline-holding / gzip-magic records, half of their batches with raw DateString strings incl. empty and slash-only); key space 80% from {\"\",/,//,a,/a/,a/b//,///x}, 10% further fixed spellings, 10% random over [ab/.-]; bufMaxReuse {0,1,2,5} (8%: -1,3,4); max retries {0,1,2,3,5}; 1-5 batches of 1-3 short records (2.5%: empty batch); per batch 0..retries+2 scripted failures reading 0..1000 bytes; 1/6 of cases cancel the context at one batch (before receive / before the worker's check / during upload). Non-trivial: at least 2 batches processed by one worker and (a retry after a partial read 0<n<len(body), or a non-written outcome); distinct by case."
+		rep.Rule = "constructors: every 5th generated case (20%) and the corpus cases that say so build their worker through transporter.NewTransporter (the production constructor: real aws-sdk-go session + S3 client with static dummy credentials, region us-east-1, and - set by the constructor itself - MaxRetries 0 and path-style addressing) instead of NewTransporterWithInterface; its endpoint is an httptest server of the harness that reads PUT /bucket/<key> completely, rebuilds the PutObjectInput and hands it to the SAME scripted fake (a scripted failure after n bytes reads n bytes of the received body and is answered with the S3 XML error InternalError, HTTP 500). SDK-level retries: HTTP 500 is retryable for the SDK's own retryer; that no second request is made is the constructor's MaxRetries 0, i.e. one worker attempt = one request = one fake call is itself under test (a constructor that loses the setting shows as attempts beyond the budget). Kept on the test constructor in the generated share: cancellation at 'check'/'upload' (the real client honours the context, the fake ignores it by contract) and key spaces / raw time strings with an empty, '.' or '..' segment inside a component (the SDK's REST URI cleaning rewrites such keys; see the key-probe note). A production case whose plumbing failed (unparsable request, unscripted client-side error such as a connection failure) is dropped and counted under ctor-share:dropped-infrastructure, never emitted or monitored. Then: corpus first, then seeded: 90% valid (JSON-like records without raw newline, clock-formatted upload times advancing by 0/1/many seconds or to the same hour of another day/month/year), 10% adversarial (empty / newline-holding / gzip-magic records, half of their batches with raw DateString strings incl. empty and slash-only); key space 80% from {\"\",/,//,a,/a/,a/b//,///x}, 10% further fixed spellings, 10% random over [ab/.-]; bufMaxReuse {0,1,2,5} (8%: -1,3,4); max retries {0,1,2,3,5}; 1-5 batches of 1-3 short records (2.5%: empty batch); per batch 0..retries+2 scripted failures reading 0..1000 bytes; 1/6 of cases cancel the context at one batch (before receive / before the worker's check / during upload). Non-trivial: at least 2 batches processed by one worker and (a retry after a partial read 0<n<len(body), or a non-written outcome); distinct by case."
 		rep.Notes = append(rep.Notes, "utils.RealTime.DateString() agreed with the harness clock formatting at start-up")
 		var sb strings.Builder
 		sb.WriteString("From Bifrost.model Require Import Base S3.\nOpen Scope string_scope.\nDefinition cases : list s3case := [\n")
